@@ -227,7 +227,12 @@ class Recorder:
         self.loop = loop
         self.ev = []
         loop.idle_hook = self._idle
+        loop.exc_hook = self._exc
         self._last_idle = None
+
+    def _exc(self, context):
+        self.emit(k="exc", what=repr(context.get("exception") or context.get("message"))[:120])
+        return True
 
     def now(self):
         return self.loop.time()
